@@ -46,6 +46,7 @@ package auditd
 //@   loop maintainReassemblerLoop#1 invariant[t] t != nil
 
 //@ func (*reassemblerCB).ReassemblyComplete
+//@   blocks never
 //@   requires s != nil && s.au != nil && chancap(s.errors) >= 1 && pending(s.errors) >= 0
 //@   ensures[once] g_au_calls == old(g_au_calls) || g_au_calls == old(g_au_calls) + 1
 //@   ensures[handed] g_co_err == nil && !(cast(g_co_event, "*aucoalesce.Event").Timestamp < s.after) ==> g_au_calls == old(g_au_calls) + 1 && g_au_lastev == g_co_event
